@@ -88,6 +88,28 @@ NewellVector(vs) == Newell(vs, Len(vs))
 HasRoot(v) == \E r \in 0..3000 : r * r = v
 Root(v) == CHOOSE r \in 0..3000 : r * r = v
 
+\* ---- shading devices of a window (overhang, side fins) on the wall of edge n: lengths in mm -------------------------
+\* (the building descriptor is in `upm` units per metre: its lengths are brought to mm first)
+\* A point of the wall's own frame: u along the edge (left to right seen from outside), v up from the floor, t outwards;
+\* u, v, t are numerators over q. The edge must have a rational length.
+ToGlobalMM(b, sp, p, mmu) == RotCW(b.ag, AddP(Pt(sp.x * mmu, sp.y * mmu, sp.z * mmu), RotCW(sp.as, p)))
+WallPointMM(b, sp, n, u, v, t, q, mmu) ==
+  LET dx == Vtx(sp, n + 1)[1] - Vtx(sp, n)[1]  dy == Vtx(sp, n + 1)[2] - Vtx(sp, n)[2]  L == Root(EdgeLen2(sp, n)) IN
+  ToGlobalMM(b, sp, [x |-> Vtx(sp, n)[1] * mmu * L * q + u * dx + t * dy, y |-> Vtx(sp, n)[2] * mmu * L * q + u * dy - t * dx,
+                     z |-> v * L, k |-> L * q], mmu)
+\* overhang: a W x D rectangle hinged A to the left of the window and B above its top edge, leaving the wall at the angle
+\* `ang` (0: flat against the wall, hanging down; 90 degrees: horizontal)
+OverhangCorners(b, sp, n, win, o, mmu) ==
+  LET q == Hyp(o.ang)  u0 == win.x - o.a  v0 == win.y + win.h + o.b IN
+  { WallPointMM(b, sp, n, u0 * q, v0 * q, 0, q, mmu), WallPointMM(b, sp, n, (u0 + o.w) * q, v0 * q, 0, q, mmu),
+    WallPointMM(b, sp, n, u0 * q, v0 * q - o.d * Cos(o.ang), o.d * Sin(o.ang), q, mmu),
+    WallPointMM(b, sp, n, (u0 + o.w) * q, v0 * q - o.d * Cos(o.ang), o.d * Sin(o.ang), q, mmu) }
+\* side fins: H x D rectangles square to the wall, A beside the window (to its left / right), top edge B below the window's top
+FinCorners(b, sp, n, win, f, right, mmu) ==
+  LET u0 == IF right THEN win.x + win.w + f.a ELSE win.x - f.a  v0 == win.y + win.h - f.b IN
+  { WallPointMM(b, sp, n, u0, v0, 0, 1, mmu), WallPointMM(b, sp, n, u0, v0 - f.h, 0, 1, mmu),
+    WallPointMM(b, sp, n, u0, v0 - f.h, f.d, 1, mmu), WallPointMM(b, sp, n, u0, v0, f.d, 1, mmu) }
+
 \* ---- comparison with observed values (integers in mm; a source unit is `mmu` / `div` mm) ----
 \* observed coordinate o (mm) against the exact coordinate c / k (units): | o k div - c mmu | <= tol k div
 NearC(o, c, k, mmu, div, tol) == AbsI(o * k * div - c * mmu) <= tol * k * div
